@@ -8,8 +8,11 @@ BUDDY = ["mm/buddy/multi.c", "mm/buddy/buddy.c", "mm/buddy/ckpt.c"]
 def build_variant(d, name, harness_src, small=None, san=False, extra_core=(), extra_h=()):
     """small = (total_exp, block_exp) or None for the production constants."""
     defs = []
+    # the harness snapshots struct mm_state by hand (bfs mode): tell it which arena lists the struct of this tree has
+    if "buddies_by_age" in open(os.path.join(vc.SRC, "mm/buddy/multi.h")).read():
+        defs.append("-DVERIF_HAVE_BY_AGE")
     if small:
-        defs = [f"-DROOTSIM_VERIF_B_TOTAL_EXP={small[0]}U", f"-DROOTSIM_VERIF_B_BLOCK_EXP={small[1]}U"]
+        defs += [f"-DROOTSIM_VERIF_B_TOTAL_EXP={small[0]}U", f"-DROOTSIM_VERIF_B_BLOCK_EXP={small[1]}U"]
     sub = os.path.join(d, name)
     core = vc.build_core(sub, files=BUDDY + list(extra_core), san=san, hook=False,
                          extra=defs + ["-Dmalloc=vw_malloc", "-Dfree=vw_free", "-w"])
